@@ -14,6 +14,7 @@ import (
 
 	"pgregory.net/rapid"
 
+	"verifharness/chipsim"
 	"verifharness/evid"
 	"verifharness/persona"
 	"verifharness/readcheck"
@@ -56,7 +57,7 @@ func drawCase(rt *rapid.T) *readCase {
 	o.Seed = rapid.SliceOfN(rapid.Byte(), 8, 8).Draw(rt, "seed")
 	o.Country = rapid.SampledFrom([]string{"DE", "FR", "NL", "GB", "US", "JP", "NZ", "CH"}).Draw(rt, "country")
 	o.Layout = rapid.SampledFrom([]string{"TD3", "TD3", "TD1", "TD2"}).Draw(rt, "layout")
-	o.Access = rapid.SampledFrom([]string{"BAC", "PACE+BAC", "PACE", "PACE-CAM"}).Draw(rt, "access")
+	o.Access = rapid.SampledFrom([]string{"BAC", "PACE+BAC", "PACE", "PACE-CAM", "BAC", "PACE+BAC", "PACE", "PACE-CAM", "BAC+PACE-UNSUPPORTED"}).Draw(rt, "access")
 	o.PaceID = rapid.SampledFrom([]int{12, 12, 10, 13, 15, 8, 9, 11, 14, 16, 17, 18}).Draw(rt, "paceId")
 	o.PaceCipher = rapid.SampledFrom([]mac.Cipher{"3DES", "AES-128", "AES-192", "AES-256"}).Draw(rt, "paceCipher")
 	for _, dg := range []int{2, 7, 11, 12, 13, 16} {
@@ -171,16 +172,54 @@ func drawCase(rt *rapid.T) *readCase {
 			o.DG13Size = 5
 		}
 	}
+	// files of 32 KiB .. 64 KiB that a large read size can still fetch with every chunk starting below
+	// offset 32768 (READ BINARY with an even INS addresses 15 bits)
+	if o.Extended && rapid.IntRange(0, 9).Draw(rt, "largeReadable") == 0 {
+		c.R.MaxLe = rapid.SampledFrom([]int{32768, 33000, 40000, 65535, 65536}).Draw(rt, "maxLeLarge")
+		o.ReadCap, o.LeReject, o.ChunkMod = 0, 0, 0
+		if !has(o.DGs, 13) {
+			o.DGs = append(o.DGs, 13)
+		}
+		o.DG13Size = rapid.OneOf(rapid.SampledFrom([]int{32767, 32768, 32769, 32771, 32772, 32773, 40000, 65535, 65536, 65538, 65539}), rapid.IntRange(32768, 65539)).Draw(rt, "dg13Large")
+		if o.MaxImage > 2000 {
+			o.MaxImage = 2000
+		}
+		c.Sz = "large-readable"
+	}
 	if !o.Extended && o.AA == "RSA" && o.AARSABits > 1536 {
 		o.AARSABits = 1536
 	}
 	c.R.SkipImages = rapid.IntRange(0, 4).Draw(rt, "skipImages") == 0
 	c.R.PwKind = rapid.IntRange(0, 2).Draw(rt, "pwKind")
-	if o.Access == "BAC" && c.R.PwKind == 2 {
+	if (o.Access == "BAC" || o.Access == "BAC+PACE-UNSUPPORTED") && c.R.PwKind == 2 {
 		c.R.PwKind = 0 // BAC needs the MRZ
 	}
 	c.R.LibSeed = rapid.SliceOfN(rapid.Byte(), 8, 8).Draw(rt, "libSeed")
 	return c
+}
+
+// nextOffsetNeeded derives from the chip's transcript the offset at which the
+// next READ BINARY of the file selected last would have had to start (the end
+// of the furthest chunk the chip delivered), and that file's identifier.
+func nextOffsetNeeded(chip *chipsim.Chip) (next int, fid int) {
+	for _, ex := range chip.Transcript {
+		if ex.Plain == nil {
+			continue
+		}
+		switch ex.Plain.INS {
+		case 0xA4:
+			if ex.SW == 0x9000 && len(ex.Plain.Data) == 2 {
+				next, fid = 0, int(ex.Plain.Data[0])<<8|int(ex.Plain.Data[1])
+			}
+		case 0xB0:
+			if ex.Plain.P1&0x80 == 0 && len(ex.PlainRsp) > 0 {
+				if end := (int(ex.Plain.P1)<<8 | int(ex.Plain.P2)) + len(ex.PlainRsp); end > next {
+					next = end
+				}
+			}
+		}
+	}
+	return next, fid
 }
 
 func has(v []int, x int) bool {
@@ -272,9 +311,24 @@ func check(t interface {
 			evid.Excluded("F4-offset-32768-sfi")
 			return
 		}
-		if r.Err != nil {
+		if r.Err != nil && largest > 65539 {
+			// a top-level object of 65536 or more content bytes needs the 83 length form (5 header
+			// bytes): beyond the 64 KiB limit of the file-read routine (C13's stated domain)
+			evid.Count("file-beyond-64KiB-limit-read-refused", 1)
 			return
 		}
+		if r.Err != nil {
+			// ... and only when the read really needed such an offset: the chip-side transcript
+			// shows how far the file that was being read had got; a refusal before the next
+			// chunk would start at 32768 is not explained by the addressing limit
+			next, file := nextOffsetNeeded(chip)
+			if next <= 0x7FFF {
+				evid.Fail(t, name+"-error-large-file", rep, "reading a file of more than 32767 bytes failed although the next chunk of file %04x would start at offset %d (<= 32767): %v", file, next, r.Err)
+			}
+			evid.Count("large-file-read-refused-at-offset>=32768", 1)
+			return
+		}
+		evid.Count("large-file-read-complete", 1)
 	}
 	if r.Err != nil {
 		evid.Fail(t, name+"-error", rep, "reading a conforming chip with the right password failed: %v", r.Err)
